@@ -619,6 +619,11 @@ func genSamInput(t *rapid.T, o samGenOpts) SamInput {
 			if rapid.IntRange(0, 3).Draw(t, "revFlag") == 0 {
 				flag |= 16
 			}
+			if rapid.IntRange(0, 5).Draw(t, "otherFlagBits") == 0 {
+				// bits that say nothing about whether the record contributes: paired / proper pair / mate reverse / first / last /
+				// QC fail / duplicate (mate fields stay "*" and 0, as aligners write them for unpaired input converted later)
+				flag |= rapid.SampledFrom([]int{0x1, 0x1 | 0x40, 0x1 | 0x80, 0x1 | 0x2 | 0x40, 0x1 | 0x20 | 0x80, 0x200, 0x400, 0x1 | 0x40 | 0x400}).Draw(t, "otherFlags")
+			}
 			if o.allowNoise && rapid.IntRange(0, 5).Draw(t, "noiseBefore") == 0 {
 				in.Recs = append(in.Recs, genNoiseRecord(t, names[rapid.IntRange(0, len(names)-1).Draw(t, "noiseName")], in.Ref))
 			}
@@ -677,6 +682,8 @@ func labelSam(in SamInput, o *Obs) {
 			o.LabelIf(op.Len > 4096, "operator-longer-than-4096")
 			o.LabelIf(op.Len > 256, "operator-longer-than-256")
 		}
+		o.LabelIf(r.Flag&0x1 != 0, "flag:paired")
+		o.LabelIf(r.Flag&0x600 != 0, "flag:qcfail-or-duplicate")
 		o.LabelIf(r.Pos == 1, "pos=1")
 		o.LabelIf(r.Pos-1+refSpan(r.Ops) == L, "ends-at-L")
 	}
